@@ -648,8 +648,8 @@ func init() {
 				Check: c01CheckMisc, Batch: 4,
 			},
 			&engine.Enum[c01FixCase]{
-				Name: "fixtures-mutated",
-				Rule: "ONE case, alone in the process at that moment: the library's exported, mutable example packets (packet.TestPatPacket, packet.TestPmtPacket) are given other PIDs and header bits, then every header getter in both styles and the PAT/null classification are asked for all 8192 PIDs x 4 flag patterns; the fixtures are restored afterwards. Answers depend on the packet asked about, never on the contents of another packet",
+				Name:  "fixtures-mutated",
+				Rule:  "ONE case, alone in the process at that moment: the library's exported, mutable example packets (packet.TestPatPacket, packet.TestPmtPacket) are given other PIDs and header bits, then every header getter in both styles and the PAT/null classification are asked for all 8192 PIDs x 4 flag patterns; the fixtures are restored afterwards. Answers depend on the packet asked about, never on the contents of another packet",
 				Gen:   func(r *engine.Run, emit func(c01FixCase)) { emit(c01FixCase{0x123}) },
 				Check: c01CheckFixtures, Batch: 1,
 			},
